@@ -7,7 +7,7 @@
    exactly what the generic loops compute on every in-range argument.  Hence
    index_of / position_of are inverse bijections for every D, not only for the two
    constructors Grid::new_2d / new_3d (MetricsGridProofs.v proves those directly). *)
-From Coupe Require Import Lib.Prelude Model.Metrics Proofs.MetricsGridProofs.
+From Coupe Require Import Lib.Prelude Lib.Csr Model.Metrics Proofs.MetricsCutProofs Proofs.MetricsLambdaProofs Proofs.MetricsGridProofs.
 Open Scope nat_scope.
 
 (* the box: one coordinate per side, each below its side *)
@@ -340,6 +340,68 @@ Proof.
     rewrite <- Ea, Hci in Hcj. injection Hcj as <-. lia.
   - rewrite E, nth_opt_set_nth_other, Hci in Hn by (intros X; apply Na; symmetry; exact X).
     injection Hn as Hn. lia.
+Qed.
+
+(* [adjacent_pos] (the relation the lattice cut is defined with) = one step along one axis *)
+Lemma adjacent_pos_iff p : forall q,
+  adjacent_pos p q = true
+  <-> exists a c c', nth_opt p a = Some c /\ (c + 1 = c' \/ c' + 1 = c) /\ q = set_nth p a c'.
+Proof.
+  induction p as [|x p' IH]; intros q.
+  - cbn [adjacent_pos]. split; [discriminate|]. intros (a & c & c' & H & _). destruct a; discriminate H.
+  - destruct q as [|y q'].
+    + cbn [adjacent_pos]. split; [discriminate|]. intros (a & c & c' & _ & _ & H). destruct a; discriminate H.
+    + cbn [adjacent_pos]. rewrite orb_true_iff, !andb_true_iff, orb_true_iff, !Nat.eqb_eq, list_eqb_nat_eq, IH. split.
+      * intros [(-> & a & c & c' & Hc & Hd & ->) | (Hd & ->)].
+        -- exists (S a), c, c'. cbn [nth_opt set_nth]. repeat split; assumption.
+        -- exists 0, x, y. cbn [nth_opt set_nth]. repeat split; assumption.
+      * intros (a & c & c' & Hc & Hd & E). destruct a as [|a]; cbn [nth_opt set_nth] in *.
+        -- injection Hc as ->. injection E as -> ->. right. split; [exact Hd | reflexivity].
+        -- injection E as -> ->. left. split; [reflexivity|]. exists a, c, c'. repeat split; assumption.
+Qed.
+
+(* the form of the 2D / 3D theorems, for every D *)
+Theorem grid_neighbors_adjacent_pos_generic dims v u :
+  sides_pos dims -> v < grid_len dims ->
+  (In u (grid_neighbors dims v)
+   <-> u < grid_len dims /\ adjacent_pos (position_of dims v) (position_of dims u) = true).
+Proof.
+  intros Hpos Hv. split.
+  - intros Hin.
+    destruct (grid_neighbors_are_adjacent_cells dims v u Hpos Hv Hin) as (Hu & a & c' & (c & s & Hc & Hs & Hstep) & E).
+    split; [exact Hu|]. apply adjacent_pos_iff. exists a, c, c'. split; [exact Hc|]. split; [|exact E].
+    destruct Hstep as [(H0 & -> & _) | (-> & _)]; lia.
+  - intros (Hu & Hadj). apply adjacent_pos_iff in Hadj. destruct Hadj as (a & c & c' & Hc & Hd & E).
+    destruct (grid_index_bij_generic dims Hpos) as [F _].
+    destruct (F v Hv) as [_ Hbv]. destruct (F u Hu) as [_ Hbu].
+    pose proof (nth_opt_Some _ _ _ Hc) as Ha.
+    destruct (nth_opt_lt dims a) as [s Hs]; [rewrite <- (in_box_gen_length _ _ Hbv); exact Ha|].
+    assert (Hc' : nth_opt (position_of dims u) a = Some c') by (rewrite E; apply nth_opt_set_nth_same; exact Ha).
+    pose proof (in_box_gen_nth dims _ a c' s Hbu Hc' Hs) as Hlt.
+    apply (grid_adjacent_cells_are_neighbors dims v u a c' Hpos Hv Hu); [|exact E].
+    exists c, s. split; [exact Hc|]. split; [exact Hs|].
+    destruct Hd as [Hd|Hd]; [right | left]; repeat split; lia.
+Qed.
+
+(* hence, for every D: the Grid's edge cut is the lattice cut, its lambda cut the definition *)
+Theorem grid_cut_is_lattice_cut_generic dims p :
+  sides_pos dims -> grid_len dims <= length p ->
+  grid_edge_cut dims p = Ok (lattice_cut dims p).
+Proof.
+  intros Hpos. apply grid_cut_lattice.
+  - intros v u Hv. apply grid_neighbors_adjacent_pos_generic; assumption.
+  - intros v Hv. apply grid_neighbors_nodup_generic; assumption.
+Qed.
+
+Theorem grid_lambda_def_generic dims p ws k :
+  sides_pos dims -> grid_len dims <= length p -> length ws = grid_len dims ->
+  Forall (fun q => q < k) p ->
+  grid_lambda_cut dims p ws = Ok (lambda_def k (grid_rows dims) p ws).
+Proof.
+  intros Hpos Hp Hws Hk. unfold grid_lambda_cut. apply lambda_cut_def; try assumption.
+  - apply grid_wf. intros v u Hv. apply grid_neighbors_adjacent_pos_generic; assumption.
+  - rewrite grid_rows_length. exact Hp.
+  - rewrite grid_rows_length. exact Hws.
 Qed.
 
 Example grid_neighbors_generic_nonvacuous :
